@@ -5,7 +5,7 @@
 From Coq Require Import List String Ascii Bool Permutation Lia.
 Import ListNotations.
 From DI Require Import Syntax Tokens Bounds Param Subs Superset Substitute Spec RustSem Group Search Gen GenMain Validate IMap Hygiene Dispatch Examples ExamplesGroup ExamplesF16.
-From DI.proofs Require Import Basics SupersetSound SupersetExact SupersetComplete SupersetWf SubstituteProofs SubstituteSpec BoundsProofs DispatchProofs GroupProofs SearchProofs SearchFlat SearchNested FlatSemantics FlatConcrete GenProofs GenMainProofs GenMainArgs ParamProofs ParamNames ParamAlpha ParamCanon ParamOrder RustSemProofs ValidateProofs IMapProofs HygieneProofs.
+From DI.proofs Require Import Basics SupersetSound SupersetExact SupersetComplete SupersetWf SubstituteProofs SubstituteSpec BoundsProofs DispatchProofs GroupProofs SearchProofs SearchFlat SearchNested SearchRows FlatSemantics FlatConcrete GenProofs GenMainProofs GenMainArgs ParamProofs ParamNames ParamAlpha ParamCanon ParamOrder RustSemProofs ValidateProofs IMapProofs HygieneProofs.
 
 (* ===================================================================================== *)
 (* C09 -- header generalisation is exact first-order matching                             *)
@@ -339,6 +339,23 @@ Example C11_search_nonvacuous :
   search_render ex_blocks = Some ex_grouping.
 Proof. vm_compute. reflexivity. Qed.
 Print Assumptions C11_search_nonvacuous.
+
+(* every family the search returns carries, under every one of its keys, exactly one row of
+   payloads per member (the invariant of AssocBoundsGroup through new / intersection / prune and
+   the whole backtracking search), for every input and every fuel *)
+Theorem C11_one_row_per_member : forall fuel blocks gm,
+  search fuel blocks = Some gm -> Forall rows_ok gm.
+Proof. exact search_rows. Qed.
+Print Assumptions C11_one_row_per_member.
+
+(* hence the generator emits exactly one helper impl per member of every family: a block that
+   was placed in a family appears once in the expansion, never zero times and never twice *)
+Theorem C11_one_helper_impl_per_member : forall fuel blocks gm out,
+  search fuel blocks = Some gm -> gen_helper_impls blocks gm = Some out ->
+  Forall2 (fun fam e => List.length fam = List.length (snd (snd e))) out gm.
+Proof. exact one_helper_impl_per_member. Qed.
+Print Assumptions C11_one_helper_impl_per_member.
+
 
 (* ===================================================================================== *)
 (* C05 -- block order independence (meaning of the expansion)                              *)
